@@ -293,13 +293,20 @@ func (c *Context) ExecutePackage(outDir string, p Package) error {
 		}
 	}
 
+	// An unknown file type is a mistake in the tool, found before anything is
+	// written: ranging over the map, it would otherwise depend on the
+	// iteration order which of the other files get written, and the errors
+	// collected for those would be dropped.
+	for _, f := range files {
+		if _, ok := c.FileTypes[f.FileType]; !ok {
+			return fmt.Errorf("the file type %q registered for file %q does not exist in the context", f.FileType, f.Name)
+		}
+	}
+
 	var errors []error
 	for _, f := range files {
 		finalPath := filepath.Join(path, f.Name)
-		assembler, ok := c.FileTypes[f.FileType]
-		if !ok {
-			return fmt.Errorf("the file type %q registered for file %q does not exist in the context", f.FileType, f.Name)
-		}
+		assembler := c.FileTypes[f.FileType]
 		var err error
 		if c.Verify {
 			err = assembler.VerifyFile(f, finalPath)
